@@ -40,6 +40,10 @@ type Case struct {
 	MaxSteps int    `json:"max_steps,omitempty"` // steps
 	StepOpt  string `json:"step_opt,omitempty"`  // steps: compile | call
 
+	// SameKeys: node keys do not carry their level: the host node of every level has the same key ("h") and leaf
+	// letters repeat across levels, so a node path contains the same key several times
+	SameKeys bool `json:"same_keys,omitempty"`
+
 	Clause string `json:"clause,omitempty"` // set in a recorded violation: the signature that is replayed
 }
 
@@ -57,7 +61,11 @@ func (c Case) Canon() string {
 	case "baseline":
 		return fmt.Sprintf("baseline %s peers=%s %s", levelsString(c.Levels), c.Peers, c.Paradigm)
 	case "node":
-		return fmt.Sprintf("node %s fail=L%d%s %s native=%s peers=%s %s", levelsString(c.Levels), c.FailLevel, c.FailNode, c.Kind, c.Native, c.Peers, c.Paradigm)
+		sk := ""
+		if c.SameKeys {
+			sk = " same-keys-on-every-level"
+		}
+		return fmt.Sprintf("node %s fail=L%d%s %s native=%s peers=%s %s%s", levelsString(c.Levels), c.FailLevel, c.FailNode, c.Kind, c.Native, c.Peers, c.Paradigm, sk)
 	case "pair":
 		return fmt.Sprintf("pair %s b=%s c=%s native=%s %s", levelsString(c.Levels), c.Kind, c.Kind2, c.Native, c.Paradigm)
 	case "tools":
@@ -144,7 +152,15 @@ func hasLaterStep(shape, letter string) bool {
 	return false
 }
 
-func nodeKey(level int, letter string) string { return fmt.Sprintf("L%d%s", level, letter) }
+// sameKeys is set by runCase for the case being run (cases run one at a time).
+var sameKeys bool
+
+func nodeKey(level int, letter string) string {
+	if sameKeys {
+		return letter
+	}
+	return fmt.Sprintf("L%d%s", level, letter)
+}
 
 // expected node path of a failure at (level, letter): host keys of the enclosing levels, then the node.
 func expectedPath(levels []Level, level int, letter string) []string {
@@ -311,6 +327,26 @@ func enumerate(quick bool, yield func(Case)) {
 						for _, p := range paradigms {
 							add(Case{Family: "node", Levels: t, FailLevel: ps.level, FailNode: ps.letter, Kind: k, Native: native, Peers: "invoke", Paradigm: p})
 						}
+					}
+				}
+			}
+		}
+	}
+
+	// 2b. the same keys on every level (the path of a failure at depth 2 is h/h/<leaf>): one error and one panic kind,
+	// two native paradigms, every position of every nested tower
+	for _, t := range tw {
+		if len(t) < 2 {
+			continue
+		}
+		for _, ps := range positions(t) {
+			if ps.level == 0 {
+				continue
+			}
+			for _, k := range []string{"custom", "panic-string"} {
+				for _, n := range []nat{{"invoke", "invoke"}, {"stream-call", "invoke"}} {
+					for _, p := range paradigms {
+						add(Case{Family: "node", Levels: t, FailLevel: ps.level, FailNode: ps.letter, Kind: k, Native: n.native, Peers: n.peers, Paradigm: p, SameKeys: true})
 					}
 				}
 			}
